@@ -359,7 +359,8 @@ def read_mode_basis(filename, fmt=None):
 
             if f[0].data is not None:
                 grid = Grid.from_dict(tree['grid'])
-                modes = f[0].data
+                # FITS images are big endian; scipy.sparse only accepts native byte order.
+                modes = f[0].data.astype(f[0].data.dtype.newbyteorder('='))
 
                 old_shape = np.concatenate((modes.shape[:-grid.ndim], [grid.size]))
                 tree['transformation_matrix'] = modes.reshape(old_shape).T
